@@ -1633,6 +1633,21 @@ class NMFUError(Exception):
             return self.message + " " + self._get_message()
         return self._get_message()
 
+def diagnoses_recursion_limit(function):
+    """
+    The front end and the converters recurse over the program (once per statement of a sequence, once per nested block, once per
+    macro expansion). Turn hitting the interpreter's recursion limit into a diagnosed error.
+    """
+
+    def wrapper(*args, **kwargs):
+        try:
+            return function(*args, **kwargs)
+        except RecursionError:
+            raise NMFUError([], "The program is nested too deeply (or a statement sequence is too long) for the compiler: recursion limit reached") from None
+    wrapper.__name__ = function.__name__
+    wrapper.__doc__ = function.__doc__
+    return wrapper
+
 class IllegalASTStateError(NMFUError):
     def __init__(self, msg, *source):
         super().__init__([*source])
@@ -4474,6 +4489,7 @@ class ParseCtx:
         self.yield_codes = []
         self.finish_codes = []
     
+    @diagnoses_recursion_limit
     def parse(self):
         # Enumeration constants and result codes all become enumerators named <PROGRAM>_<...>: keep track of who produced which
         generated_enumerators = {x: None for x in ("OK", "FAIL", "DONE")}
@@ -5431,6 +5447,7 @@ class DfaCompileCtx:
                     raise IllegalDFAStateError("Infinite loop due to self-referential fallthrough", transition)
         
 
+    @diagnoses_recursion_limit
     def compile(self):
         """
         Convert the AST into a (potentially optimized) DFA.
